@@ -311,6 +311,7 @@ class SolverSpy:
         self.orig = cvxpy.Problem.solve
         self.calls = []
         self.fail_cbc = False
+        self.fail_all = False
         self.cbc_calls = 0
         self.installed = False
 
@@ -321,6 +322,9 @@ class SolverSpy:
             solver = kwargs.get("solver", args[0] if args else None)
             spy.calls.append(str(solver))
             ctxmod.CTX.count("M-SOLVER")
+            if spy.fail_all:
+                # no solver is usable at all: whatever the library then does, it must not hand out a wrong answer
+                raise spy.cvxpy.SolverError("injected solver failure (vframework fault injection: every solver)")
             if spy.fail_cbc and str(solver) == "CBC":
                 # True: every CBC call fails; an integer k > 1: every k-th CBC call fails (an intermittent fault)
                 spy.cbc_calls += 1
